@@ -13,6 +13,13 @@
 //!       `Thick.styledBoundingBox`. Oracle `C02:line-bbox-contains-pixels` (counts for C02 only):
 //!       every pixel of `pixels()` lies inside that box.
 //!
+//! Both streams are also generated as a SMALL SLICE (`generate_line_slice`, ~230 lines per stream) for the checks of
+//! C01, C02 and C07, whose theorems speak about the single stroked line (Props/C01/Line.lean ties to `thick.points` /
+//! `thick-draw-eq-pixels`; C02 to `C02:line-bbox-contains-pixels`; C07 to the moved line): under C07 every line is
+//! followed by the same line with moved end points and the oracles `C07:thick-line-translate` (pixel sequence and
+//! picture of `translate` / `translate_mut` on the primitive and on the styled line = the shifted sequence) and
+//! `C07:thick-line-bbox-translate` (the box moves along; an empty box stays empty) run on each op.
+//!
 //! Lean statements mirrored: `thick_width1_eq_points` (C17:thick-width1), `thick_contains_thin`
 //! (C17:thick-contains-thin; proved in the stronger form "the pixel sequence starts with points()");
 //! mirrored Lean statements (lean/EG/Props/C17/Stroke.lean): `thick_no_pixel_twice` (C17:thick-duplicate),
@@ -285,6 +292,54 @@ const WIDE_FIXED: [(i32, i32, i32, i32, u32); 18] = [
     (0, 0, 2, 1, 100),
 ];
 
+/// Offsets of the C07 oracle of `thick.points` / `thick.bbox` (`C07:thick-line-translate*`).
+const LINE_OFFS: [(i32, i32); 4] = [(1, 0), (0, -1), (-64, 33), (5, 3)];
+
+/// The slice of the single-line streams for C01 / C02 / C07 (a few hundred ops per stream; the C17 check runs the
+/// exhaustive grids): every (dx, dy) of a 5 x 5 lattice crossing the axes x widths 0,1,2,3,5,8 from an off-origin start,
+/// the fixed wide strokes of C17, seeded random lines up to +-300 with widths up to 40 and wide strokes 13..=128 on
+/// lines up to +-100. For C07 every line is followed by the same line moved by one of `LINE_OFFS` (so that the model
+/// is compared on the moved line as well; the oracle `C07:thick-line-translate` compares pictures of both).
+fn generate_line_slice(pid: &str, tier: Tier, rng: &mut Rng, emit: &mut dyn FnMut(String)) {
+    let mut k = 0usize;
+    let mut both = |x0: i64, y0: i64, x1: i64, y1: i64, w: i64, emit: &mut dyn FnMut(String)| {
+        k += 1;
+        emit(format!("thick.points {} {} {} {} {}", x0, y0, x1, y1, w));
+        emit(format!("thick.bbox {} {} {} {} {}", x0, y0, x1, y1, w));
+        if pid == "C07" {
+            let d = LINE_OFFS[k % LINE_OFFS.len()];
+            let (dx, dy) = (d.0 as i64, d.1 as i64);
+            emit(format!("thick.points {} {} {} {} {}", x0 + dx, y0 + dy, x1 + dx, y1 + dy, w));
+            emit(format!("thick.bbox {} {} {} {} {}", x0 + dx, y0 + dy, x1 + dx, y1 + dy, w));
+        }
+    };
+    for dx in [-5i64, -2, 0, 1, 4] {
+        for dy in [-4i64, -1, 0, 2, 5] {
+            for w in [0i64, 1, 2, 3, 5, 8] {
+                both(-3, 2, -3 + dx, 2 + dy, w, emit);
+            }
+        }
+    }
+    for (x0, y0, x1, y1, w) in WIDE_FIXED {
+        both(x0 as i64, y0 as i64, x1 as i64, y1 as i64, w as i64, emit);
+    }
+    let n = if tier == Tier::Quick { 60 } else { 600 };
+    for i in 0..n {
+        let (sc, w) = if i % 3 == 2 { (100, *rng.pick(&WIDE_W) as i64) } else { (*rng.pick(&[10i64, 40, 300]), rng.range(0, 40)) };
+        let (x0, y0) = (rng.range(-200, 200), rng.range(-200, 200));
+        let (dx, dy) = match rng.below(6) {
+            0 => (rng.range(-sc, sc), 0),
+            1 => (0, rng.range(-sc, sc)),
+            2 => {
+                let d = rng.range(-sc, sc);
+                (d, if rng.chance(1, 2) { d } else { -d })
+            }
+            _ => (rng.range(-sc, sc), rng.range(-sc, sc)),
+        };
+        both(x0, y0, x0 + dx, y0 + dy, w, emit);
+    }
+}
+
 fn emit_grid(r: i32, wmax: u32, emit: &mut dyn FnMut(String)) {
     for (sx, sy) in STARTS {
         for dx in -r..=r {
@@ -321,6 +376,9 @@ impl Module for M {
          The counters polyline:join:*, triangle:join:*, polyline:skeleton-segments, triangle:collapsed-inside report the join kinds \
          exercised (computed by a port of the private join code and compared with the Lean model's classification in the result line). \
          Non-trivial: at least one pixel drawn (C07: and a non-zero offset). \
+         C01 / C02 / C07 additionally: the single stroked line (thick.points + thick.bbox) on a 5x5 lattice of (dx,dy) x widths \
+         0,1,2,3,5,8, the 18 fixed wide strokes of C17, seeded random lines up to +-300 (widths <= 40) and wide strokes 13..=128 \
+         (quick 228 lines, thorough 768; C07: each followed by the same line moved by one of 4 offsets). \
          C01 (when the check of C01 runs this module): a small slice of the same two streams for the three drawing paths - every \
          segment of the 5x5 lattice x widths 0..=5 (thorough 6x6 x 0,1,2,3,4,5,7,9), every triple of a 4x3 sub-lattice (thorough 5x4) \
          with widths rotating, 600 (6000) sampled 4/5-vertex polylines, the skeleton shapes, ALL triangles of the 4x4 (5x5) lattice x 3 \
@@ -332,6 +390,13 @@ impl Module for M {
         if pid != "C17" {
             // joins streams (C02, C07, C19); the C17 generation below is unchanged
             generate_joins(pid, tier, rng, emit);
+            // the single stroked LINE for the properties whose theorems speak about it (Props/C01/Line.lean,
+            // Props/C02 line bbox, Props/C07 line translation): a small slice of thick.points / thick.bbox, from its
+            // own PRNG stream so that the joins ops above stay what they were
+            if pid == "C01" || pid == "C02" || pid == "C07" {
+                let mut r = Rng::new(rng.next() ^ 0x7157_11CE);
+                generate_line_slice(pid, tier, &mut r, emit);
+            }
             return;
         }
         for dx in -2..=2 {
@@ -459,6 +524,25 @@ impl Module for M {
                 ctx.expect(res.is_ok() && drawn == px, "thick-draw-eq-pixels", || {
                     format!("{:?}->{:?} w={} draw() differs from pixels()", s, e, w)
                 });
+                if ctx.pid == "C07" {
+                    // C07: the stroked line moved by d (`translate` on the primitive, `translate` / `translate_mut` on the
+                    // styled line) yields the pixel sequence of the unmoved one shifted by d
+                    for d in LINE_OFFS.map(|(x, y)| Point::new(x, y)) {
+                        let want: Vec<Point> = px.iter().map(|p| *p + d).collect();
+                        let style = PrimitiveStyle::with_stroke(BinaryColor::On, w);
+                        let a: Vec<Point> = Line::new(s, e).translate(d).into_styled(style).pixels().map(|Pixel(p, _)| p).collect();
+                        let b: Vec<Point> = styled.translate(d).pixels().map(|Pixel(p, _)| p).collect();
+                        let mut sm = styled;
+                        sm.translate_mut(d);
+                        let c: Vec<Point> = sm.pixels().map(|Pixel(p, _)| p).collect();
+                        let mut r1: R1<BinaryColor> = R1::unbounded();
+                        let ok = sm.draw(&mut r1).is_ok();
+                        let wantm: PMap = want.iter().map(|p| ((p.y, p.x), 1u32)).collect();
+                        ctx.expect(a == want && b == want && c == want && ok && r1.rec.map == wantm, "C07:thick-line-translate", || {
+                            format!("{:?}->{:?} w={} moved by {:?}: the pixels are not the shifted pixels of the unmoved line", s, e, w, d)
+                        });
+                    }
+                }
                 pts_digest(&px)
             }
             "thick.bbox" => {
@@ -471,6 +555,14 @@ impl Module for M {
                 ctx.expect(styled.pixels().all(|Pixel(p, _)| bb.contains(p)), "C02:line-bbox-contains-pixels", || {
                     format!("{:?}->{:?} w={} pixel outside {:?}", s, e, w, bb)
                 });
+                if ctx.pid == "C07" {
+                    // C07: the box of the moved stroked line is the moved box (an empty box keeps being empty)
+                    for d in LINE_OFFS.map(|(x, y)| Point::new(x, y)) {
+                        let bd = styled.translate(d).bounding_box();
+                        let ok = if bb.is_zero_sized() { bd.is_zero_sized() } else { bd == Rectangle::new(bb.top_left + d, bb.size) };
+                        ctx.expect(ok, "C07:thick-line-bbox-translate", || format!("{:?}->{:?} w={} by {:?}: {} -> {}", s, e, w, d, fmt_rect(&bb), fmt_rect(&bd)));
+                    }
+                }
                 fmt_rect(&bb)
             }
             "thick.polyline" => exec_polyline(&mut t, op, ctx),
@@ -495,6 +587,9 @@ impl Module for M {
 //          draw: `-` (no call) | `di:<points digest>` (one draw_iter call) |
 //                `fs:<digest of the fill_solid rectangles as the point list tl,(w,h),tl,(w,h),..>`
 //          px:   points digest of `pixels()` in emission order (format of `m_line::pts_digest`)
+//          g:    `*` here; the model driver prints one character per guard of the join theorems (1 holds, 0 fails, - not
+//                applicable; order: lean/EG/Driver/Thick.lean `polyGuardBits` / `triGuardBits`). Not compared (check.py
+//                strips the token); tallied into the evidence as coverage.guard_bits. Both streams end with it.
 //
 //   thick.triangle dx dy x1 y1 x2 y2 x3 y3 w align fill stroke
 //       `Triangle::new(v1, v2, v3).translate((dx,dy)).into_styled(style)`, style = stroke width w, alignment
@@ -1058,6 +1153,26 @@ fn exec_polyline(t: &mut Toks, op: &str, ctx: &mut Ctx) -> String {
             ctx.expect(rb.rec.map == wantb, "C07:translate-field:thick-polyline:bounded-target", || {
                 format!("box {}: {} px drawn, {} expected", fmt_rect(&b), rb.rec.map.len(), wantb.len())
             });
+            // the same box on a draw_iter-only target (class counts for C07 only: evaluated in its check only)
+            if ctx.pid == "C07" {
+                let mut rb1 = R1::<BinaryColor>::new(b);
+                styled.draw(&mut rb1).unwrap();
+                ctx.expect(rb1.rec.map == wantb, "C07:translate-field:thick-polyline:bounded-target", || {
+                    format!("draw_iter-only box {}: {} px drawn, {} expected", fmt_rect(&b), rb1.rec.map.len(), wantb.len())
+                });
+            }
+        }
+        // degenerate boxes (empty, flat, disjoint) on both kinds of target: nothing is drawn
+        let c07 = ctx.pid == "C07";
+        for (name, b) in degenerate_boxes(&bb).into_iter().filter(|_| c07) {
+            let (mut d1, mut d2) = (R1::<BinaryColor>::new(b), R2::<BinaryColor>::new(b));
+            styled.draw(&mut d1).unwrap();
+            styled.draw(&mut d2).unwrap();
+            let wantb = restrict_map(&mt, &b);
+            ctx.count("polyline:degenerate-bounded-target");
+            ctx.expect(d1.rec.map == wantb && d2.rec.map == wantb, "C07:translate-field:thick-polyline:bounded-target", || {
+                format!("{} box {}: {} / {} px drawn, {} expected", name, fmt_rect(&b), d1.rec.map.len(), d2.rec.map.len(), wantb.len())
+            });
         }
     }
     // C07, moved vertices
@@ -1091,7 +1206,9 @@ fn exec_polyline(t: &mut Toks, op: &str, ctx: &mut Ctx) -> String {
             ctx.count_n("polyline:segments", (n - 1) as u64);
         }
     }
-    format!("bb={} k={} s={} draw={} px={}", fmt_rect(&bb), kinds, skeletons, fmt_draw_log(&r2.rec.log), pts_digest(&px))
+    // ` g=*`: place of the model driver's guard bits (which guards of the join theorems hold on this op; the real code has
+    // no such notion). tools/check.py strips the ` g=` token from both sides before comparing and tallies the driver's bits.
+    format!("bb={} k={} s={} draw={} px={} g=*", fmt_rect(&bb), kinds, skeletons, fmt_draw_log(&r2.rec.log), pts_digest(&px))
 }
 
 fn kind_name(c: char) -> &'static str {
@@ -1769,5 +1886,5 @@ fn exec_triangle(t: &mut Toks, op: &str, ctx: &mut Ctx) -> String {
             ctx.count(if align == 0 { "triangle:collapsed-inside" } else { "triangle:is_collapsed-other-alignment" });
         }
     }
-    format!("bb={} k={} c={} draw={} px={}", fmt_rect(&bb), kinds, collapsed as u8, draw, pts_digest(&pp))
+    format!("bb={} k={} c={} draw={} px={} g=*", fmt_rect(&bb), kinds, collapsed as u8, draw, pts_digest(&pp))
 }
